@@ -36,7 +36,10 @@ CHECKS = {
               "name (isStats_perm, isStats_map); pipelines_agree: running any of the three pipelines (Narwhals, Ibis "
               "native, Ibis fallback) on the data and any of them on a permuted copy with other unrelated columns gives, "
               "for every variant, the same count, means, variances and covariances; result_keys: the result keys are the "
-              "distinct variant values, each once, for every pipeline and row order. Tie: C01's structural tie "
+              "distinct variant values, each once, for every pipeline and row order; lifted to the experiment in "
+              "Props/C02Compose.lean (analyze_indep_of_backend: two backends whose answers hold the same statistics of the "
+              "data give the same Experiment.analyze result for every pair and every metric that reads only what it "
+              "declares; instantiated for the GENERATED Mean / RatioOfMeans analysis). Tie: C01's structural tie "
               "(re-checked) + cross-backend float runs of the real Experiment.analyze / solve_power: 5 input kinds x row "
               "permutation x Arrow / Polars chunkings (incl. an empty chunk) x unrelated columns (string, all-null, "
               "numeric, reordered), every field compared with the reference run, keys compared as Python values and types; "
